@@ -46,6 +46,18 @@ pub mod verif {
     }
   }
 
+  /// machine cycles the CPU reported consumed: [last step, largest step, total]
+  pub static mut CPU: [u64; 3] = [0; 3];
+
+  #[inline(always)]
+  pub fn cpu(cycles: usize) {
+    unsafe {
+      CPU[0] = cycles as u64;
+      if CPU[1] < cycles as u64 { CPU[1] = cycles as u64; }
+      CPU[2] += cycles as u64;
+    }
+  }
+
   #[inline(always)]
   pub fn clock(device: usize, cycles: usize) {
     unsafe {
